@@ -148,27 +148,31 @@ def run_case(case):
         rank = 3 if k == 'eps3' else 4
         f = pe.dirac.epsilon_tensor if rank == 3 else pe.dirac.epsilon_tensor_rank4
         doms = [set(range(1, rank + 1)), set(range(0, rank))]
-        for t in itertools.product(range(5), repeat=rank):
-            inside = any(set(t) <= d for d in doms)
-            try:
-                got = f(*t)
-                raised = False
-            except ValueError:
-                raised = True
-            sub = dict(case, tuple=list(t))
-            if not inside:
+        carriers = {'int': int, 'np.int64': np.int64, 'np.uint8': np.uint8, 'np.uint64': np.uint64, 'np.int8': np.int8, 'float': float}
+        for t0 in itertools.product(range(5), repeat=rank):
+            inside = any(set(t0) <= d for d in doms)
+            for cname, conv in carriers.items():
+                t = tuple(conv(v) for v in t0)
+                try:
+                    got = f(*t)
+                    raised = False
+                except ValueError:
+                    raised = True
+                sub = dict(case, tuple=list(t0), index_type=cname)
+                sfx = '' if cname == 'int' else ':' + cname
+                if not inside:
+                    if raised:
+                        acc.ok((k, t0, cname), True, 'rejected-outside-domain')
+                    else:
+                        acc.fail('%s:outside-domain-accepted%s' % (k, sfx), sub, 'tuple %s (%s) outside the domain returned %r' % (t0, cname, got))
+                    continue
+                exp = perm_sign(t0, 0)
                 if raised:
-                    acc.ok((k, t), True, 'rejected-outside-domain')
+                    acc.fail('%s:inside-domain-raised%s' % (k, sfx), sub, 'tuple %s (%s) inside the domain raised' % (t0, cname))
+                elif got != exp:
+                    acc.fail('%s:wrong-sign%s' % (k, sfx), sub, 'tuple %s given as %s: expected %d got %r' % (t0, cname, exp, got))
                 else:
-                    acc.fail('%s:outside-domain-accepted' % k, sub, 'tuple %s outside the domain returned %r' % (t, got))
-                continue
-            exp = perm_sign(t, 0)
-            if raised:
-                acc.fail('%s:inside-domain-raised' % k, sub, 'tuple %s inside the domain raised' % (t,))
-            elif got != exp:
-                acc.fail('%s:wrong-sign' % k, sub, 'tuple %s: expected %d got %r' % (t, exp, got))
-            else:
-                acc.ok((k, t), exp != 0, 'sign' if exp else 'zero')
+                    acc.ok((k, t0, cname), exp != 0, 'sign' if exp else 'zero')
         acc.sample({'kind': k, 'tuple': [1, 3, 2], 'expected': -1})
     elif k == 'dirac':
         g = pe.dirac.gamma
@@ -252,6 +256,20 @@ def run_case(case):
             except Exception as e:
                 acc.fail('kn:raised:n=%d' % n, sub, 'K_%d(obs) raised %r' % (n, e))
                 continue
+            # the order given as numpy integer (signed / unsigned) or integral float
+            if ix % 4 == 0:
+                for cname, conv in (('np.int64', np.int64), ('np.uint8', np.uint8), ('np.uint64', np.uint64), ('float', float)):
+                    try:
+                        r2 = pe.derived_observable(lambda z, **kw: pe.special.kn(conv(n), z[0]), [o])
+                        d2, _ = _prop_deriv(r2, o)
+                        d1, _ = _prop_deriv(res, o)
+                        bad = None if (abs(r2.value - res.value) <= 1e-12 * abs(res.value) and abs(d2 - d1) <= 1e-10 * abs(d1)) else 'value %r derivative %r, with a Python int %r %r' % (r2.value, d2, res.value, d1)
+                    except Exception as e:
+                        bad = 'raised %r' % (e,)
+                    if bad:
+                        acc.fail('kn:order-type:%s' % cname, dict(sub, order_type=cname), 'K_n with order %s(%d) at x=%g: %s' % (cname, n, x, bad))
+                    else:
+                        acc.ok(('kn-type', n, ix, cname), True, 'kn-order-type')
             exp_val = float(ss.kn(n, o.value))
             exp_d = float(-0.5 * (ss.kn(abs(n - 1), o.value) + ss.kn(n + 1, o.value)))
             num_d = _cdiff(lambda t: float(ss.kv(n, t)), o.value)
